@@ -34,7 +34,6 @@ import (
 	"github.com/refraction-networking/conjure/pkg/core"
 	cj "github.com/refraction-networking/conjure/pkg/station/lib"
 	"github.com/refraction-networking/conjure/pkg/transports"
-	cdtls "github.com/refraction-networking/conjure/pkg/transports/connecting/dtls"
 	pb "github.com/refraction-networking/conjure/proto"
 	"google.golang.org/protobuf/proto"
 	"google.golang.org/protobuf/types/known/anypb"
@@ -60,6 +59,7 @@ type c11AppEnv struct {
 	// only writes a case can make are MarkActive / the tunnel of a recognised registration)
 	variant int
 	dirty   bool
+	cs      *c11AppConnStats
 }
 
 var c11ResolverOnce sync.Once
@@ -117,9 +117,7 @@ func (e *c11AppEnv) c11MakeDTLSReg(secret int, v6 bool) (*cj.DecoyRegistration, 
 func c11NewAppEnv(tb testing.TB) *c11AppEnv {
 	c11NoNetwork()
 	e := &c11AppEnv{aEnv: aNewEnv(tb), specs: c11Specs(), dirty: true}
-	if err := e.rm.AddTransport(pb.TransportType_DTLS, &cdtls.Transport{}); err != nil {
-		tb.Fatalf("harness problem: %v", err)
-	}
+	e.c11InstallIngest(tb) // two-generation subnet file, stubbed connecting transport (see zz_verif_c11_genreg_test.go)
 	for _, s := range e.specs {
 		reg, err := e.aMakeReg(s)
 		if err != nil {
@@ -198,10 +196,12 @@ func (e *c11AppEnv) c11Flights(tb testing.TB, withObfs4 bool) []c11Flight {
 // ---- wrap -----------------------------------------------------------------------------------------
 
 type c11WrapCase struct {
-	Data    vh.Hex `json:"data"`
-	V6      bool   `json:"v6,omitempty"`
-	Variant int    `json:"registry"`
-	Kind    string `json:"kind,omitempty"`
+	Data    vh.Hex        `json:"data"`
+	V6      bool          `json:"v6,omitempty"`
+	Variant int           `json:"registry"`
+	RegMsgs []vh.Hex      `json:"reg_msgs,omitempty"` // registration messages ingested (real ingest path) on top of the registry variant
+	Flight  *c11FlightSel `json:"flight,omitempty"`   // genuine flight for one of the registrations they created, sent in front of data
+	Kind    string        `json:"kind,omitempty"`
 }
 
 func c11ErrName(err error) string {
@@ -216,9 +216,17 @@ func c11ErrName(err error) string {
 	return "error"
 }
 
-func c11WrapRun(e *c11AppEnv, c c11WrapCase) (classes []string, nontrivial bool, o c11h.Outcome) {
+func c11WrapRun(e *c11AppEnv, c c11WrapCase) (entry string, classes []string, nontrivial bool, o c11h.Outcome) {
 	e.c11ResetRegistry(c.Variant)
-	ph := aPhantom(0, c.V6)
+	created, gcls, o := e.c11Ingest(c.RegMsgs)
+	if o.Hung || o.Inconclusive || o.Panic != nil {
+		return "wrap:ingest", gcls, true, o
+	}
+	ph, data, fcls, err := e.c11BuildFlight(created, c.Flight, c.Data, c.V6)
+	if err != nil {
+		ph, data, fcls = aPhantom(0, c.V6), c.Data, []string{"flight-build-failed"}
+	}
+	classes = append(append(classes, gcls...), fcls...)
 	var cls []string
 	defer func() {
 		if o.Hung || o.Inconclusive || o.Panic != nil {
@@ -227,7 +235,7 @@ func c11WrapRun(e *c11AppEnv, c c11WrapCase) (classes []string, nontrivial bool,
 	}()
 	o = c11h.Guard(c11h.Bound, func() {
 		for tt, t := range e.rm.GetWrappingTransports() {
-			buf := bytes.NewBuffer(append([]byte(nil), c.Data...))
+			buf := bytes.NewBuffer(append([]byte(nil), data...))
 			conn := vconn.New(vconn.Script{End: "eof", Remote: "203.0.113.77:5555"})
 			reg, wrapped, err := t.WrapConnection(buf, conn, ph, e.rm)
 			res := c11ErrName(err)
@@ -239,12 +247,17 @@ func c11WrapRun(e *c11AppEnv, c c11WrapCase) (classes []string, nontrivial bool,
 				_, _ = io.Copy(io.Discard, io.LimitReader(wrapped, 1<<20))
 				if r, ok := reg.(*cj.DecoyRegistration); ok {
 					e.rm.MarkActive(r)
+					for _, g := range created {
+						if g == r {
+							cls = append(cls, "generated-reg-recognised", "generated-reg-recognised:"+tt.String())
+						}
+					}
 				}
 			}
 		}
 	})
 	if o.Hung || o.Inconclusive {
-		return []string{"gave-up-waiting"}, true, o
+		return "wrap", []string{"gave-up-waiting"}, true, o
 	}
 	for _, k := range cls {
 		if k == "Min:wrapped" || k == "Prefix:wrapped" || k == "Obfs4:wrapped" || k == "Prefix:error" || k == "Obfs4:error" {
@@ -252,17 +265,17 @@ func c11WrapRun(e *c11AppEnv, c c11WrapCase) (classes []string, nontrivial bool,
 			break
 		}
 	}
-	nontrivial = len(c.Data) >= 32 && c.Variant != 1
-	return append(classes, cls...), nontrivial, o
+	nontrivial = len(data) >= 32 && e.rm.CountRegistrations(ph) > 0
+	return "wrap", append(classes, cls...), nontrivial, o
 }
 
 func c11WrapCheck(t vh.Fataler, rec *vh.Rec, e *c11AppEnv, c c11WrapCase, fuzz bool) {
-	classes, nontrivial, o := c11WrapRun(e, c)
+	entry, classes, nontrivial, o := c11WrapRun(e, c)
 	classes = append(classes, c11h.Source(fuzz), fmt.Sprintf("registry:%d", c.Variant))
 	if c.Kind != "" {
 		classes = append(classes, "kind:"+c.Kind)
 	}
-	c11h.Report(t, rec, c11WrapSub, "wrap", c, vh.Digest(c), o, nontrivial, classes...)
+	c11h.Report(t, rec, c11WrapSub, entry, c, vh.Digest(c), o, nontrivial, classes...)
 }
 
 const c11WrapRule = "received-so-far bytes -> WrapConnection of min, prefix and obfs4 over a registry with registrations of every transport (min, prefix x 10 ids, obfs4, dtls; variants: all valid / empty / obfs4 only / tracked but unvalidated), wrapped connections read to EOF; generated: genuine first flights of the real client transports (intact, truncated at every length class, bit-flipped, with the static prefix of another id, with garbage appended), look-alike prefixes + garbage, random bytes of lengths around every threshold (0..8193); non-trivial = at least 32 bytes against a non-empty registry (a tag is extracted and looked up); distinct by case"
@@ -313,7 +326,17 @@ func c11Variant(rt *rapid.T) int {
 	return rapid.SampledFrom([]int{0, 0, 0, 0, 0, 1, 2, 3}).Draw(rt, "registry")
 }
 
+// c11WrapSeeds returns (data, regmsg, cfg) seeds: the byte-level seeds against the fixed registries
+// (no registration message) and the generated-registry seeds.
 func c11WrapSeeds(flights []c11Flight) [][]any {
+	var out [][]any
+	for _, s := range c11RawSeeds(flights) {
+		out = append(out, []any{s[0], []byte{}, s[1]})
+	}
+	return append(out, c11GenSeeds()...)
+}
+
+func c11RawSeeds(flights []c11Flight) [][]any {
 	var out [][]any
 	for _, fl := range flights {
 		out = append(out, []any{fl.Data, uint16(0)}, []any{append(append([]byte(nil), fl.Data...), []byte("GET / HTTP/1.1\r\n\r\n")...), uint16(2)})
@@ -344,19 +367,38 @@ func TestVerif_C11_wrap(t *testing.T) {
 		return
 	}
 	rec.Require("deep", "Min:wrapped", "Prefix:wrapped", "Obfs4:wrapped", "Prefix:error", "Min:try-again", "Prefix:try-again", "Obfs4:try-again",
-		"Min:not-transport", "Prefix:not-transport", "Obfs4:not-transport", "kind:short", "kind:truncated", "kind:other-prefix")
+		"Min:not-transport", "Prefix:not-transport", "Obfs4:not-transport", "kind:short", "kind:truncated", "kind:other-prefix",
+		"gen:accepted", "gen:rejected", "gen:accepted:Prefix", "gen:accepted:Min", "gen:accepted:Obfs4", "gen:accepted-params-nil:Prefix", "gen:accepted-params-nil:Min",
+		"gen:accepted-prefix-id-omitted", "genuine-flight-for-accepted-generated-reg", "genuine-flight-for-params-nil-reg",
+		"generated-reg-recognised:Prefix", "generated-reg-recognised:Min", "generated-reg-recognised:Obfs4")
 	flights := e.c11Flights(t, true)
 	if err := c11h.WriteCorpus("FuzzVerif_C11_wrap", c11WrapSeeds(flights)); err != nil {
 		t.Fatalf("harness problem: %v", err)
 	}
 	rapid.Check(t, func(rt *rapid.T) {
-		data, kind := c11FlightBytes(rt, flights)
-		c := c11WrapCase{Data: data, V6: rapid.IntRange(0, 3).Draw(rt, "v6") == 3, Variant: c11Variant(rt), Kind: kind}
+		c := c11WrapCase{V6: rapid.IntRange(0, 3).Draw(rt, "v6") == 3, Variant: c11Variant(rt)}
+		c.Data, c.Kind, c.RegMsgs, c.Flight = c11DrawInput(rt, flights)
 		c11WrapCheck(rt, rec, e, c, false)
 	})
 }
 
-// cfg: bits 0-1 registry variant ... bit 2 ipv6 phantom
+// c11DrawInput draws what is sent and what was registered before: half of the cases use only the
+// fixed registries and byte streams derived from their genuine flights; the other half also ingest
+// generated registration messages and mostly send a genuine flight for one of them (data = tail).
+func c11DrawInput(rt *rapid.T, flights []c11Flight) (data []byte, kind string, msgs []vh.Hex, fl *c11FlightSel) {
+	if rapid.Bool().Draw(rt, "generated_registry") {
+		msgs, fl = c11GenRegistry(rt)
+	}
+	if fl != nil {
+		n := rapid.SampledFrom([]int{0, 0, 1, 16, 100, 1500}).Draw(rt, "taillen")
+		return c11h.Bytes(rt, "tail", []int{n}), "generated-flight", msgs, fl
+	}
+	data, kind = c11FlightBytes(rt, flights)
+	return data, kind, msgs, nil
+}
+
+// cfg: bit 1 ipv6 phantom, bits 2-3 registry variant, bits 4-7 genuine flight for the registration
+// message (see c11FlightFromSel), bits 8-9 which created registration, bit 10 probe the fixed phantom
 func FuzzVerif_C11_wrap(f *testing.F) {
 	rec := c11h.Rec(c11WrapSub, c11WrapRule)
 	defer rec.Flush()
@@ -365,28 +407,34 @@ func FuzzVerif_C11_wrap(f *testing.F) {
 	for _, s := range c11WrapSeeds(e.c11Flights(f, true)) {
 		f.Add(s...)
 	}
-	f.Fuzz(func(t *testing.T, data []byte, cfg uint16) {
-		if len(data) > 20000 {
+	f.Fuzz(func(t *testing.T, data []byte, regmsg []byte, cfg uint16) {
+		if len(data) > 20000 || len(regmsg) > 4096 {
 			return
 		}
-		c11WrapCheck(t, rec, e, c11WrapCase{Data: data, Variant: int(cfg>>2) & 3, V6: cfg&2 != 0}, true)
+		c := c11WrapCase{Data: data, Variant: int(cfg>>2) & 3, V6: cfg&2 != 0}
+		if len(regmsg) > 0 {
+			c.RegMsgs, c.Flight = []vh.Hex{regmsg}, c11FlightFromSel(cfg)
+		}
+		c11WrapCheck(t, rec, e, c, true)
 	})
 }
 
 // ---- conn -----------------------------------------------------------------------------------------
 
 type c11ConnCase struct {
-	Data    vh.Hex `json:"data"`
-	Cuts    []int  `json:"cuts"` // segment lengths; what is left arrives as one last segment
-	V6      bool   `json:"v6,omitempty"`
-	Variant int    `json:"registry"`
-	End     string `json:"end"` // how the peer ends after the data: eof | reset | timeout
-	Kind    string `json:"kind,omitempty"`
+	Data    vh.Hex        `json:"data"`
+	Cuts    []int         `json:"cuts"` // segment lengths; what is left arrives as one last segment
+	V6      bool          `json:"v6,omitempty"`
+	Variant int           `json:"registry"`
+	RegMsgs []vh.Hex      `json:"reg_msgs,omitempty"` // as in the wrap sub-check
+	Flight  *c11FlightSel `json:"flight,omitempty"`
+	End     string        `json:"end"` // how the peer ends after the data: eof | reset | timeout
+	Kind    string        `json:"kind,omitempty"`
 }
 
-func (c c11ConnCase) script() vconn.Script {
+func (c c11ConnCase) script(stream []byte) vconn.Script {
 	var steps []vconn.Step
-	rest := []byte(c.Data)
+	rest := stream
 	for _, k := range c.Cuts {
 		if len(rest) == 0 {
 			break
@@ -414,12 +462,22 @@ func (c c11ConnCase) script() vconn.Script {
 	return s
 }
 
-func c11ConnRun(e *c11AppEnv, c c11ConnCase) (classes []string, nontrivial bool, o c11h.Outcome) {
+func c11ConnRun(e *c11AppEnv, c c11ConnCase) (entry string, classes []string, nontrivial bool, o c11h.Outcome) {
 	e.c11ResetRegistry(c.Variant)
-	ph := aPhantom(0, c.V6)
+	created, gcls, o := e.c11Ingest(c.RegMsgs)
+	if o.Hung || o.Inconclusive || o.Panic != nil {
+		return "conn:ingest", gcls, true, o
+	}
+	ph, stream, fcls, err := e.c11BuildFlight(created, c.Flight, c.Data, c.V6)
+	if err != nil {
+		ph, stream, fcls = aPhantom(0, c.V6), c.Data, []string{"flight-build-failed"}
+	}
+	classes = append(append(classes, gcls...), fcls...)
+	entry = "conn"
 	onPhantom := e.rm.CountRegistrations(ph)
 	cm := newConnManager(nil) // fresh state counters for every case
-	conn := vconn.New(c.script())
+	script := c.script(stream)
+	conn := vconn.New(script)
 	conn.WaitLimit = c11h.Bound
 	done := make(chan c11h.Outcome, 1)
 	go func() {
@@ -450,7 +508,7 @@ wait:
 		}
 	}
 	st := &cm.ipv4
-	if c.V6 {
+	if ph.To4() == nil {
 		st = &cm.ipv6
 	}
 	if o.Hung || o.Inconclusive || o.Panic != nil || designSleep || atomic.LoadInt64(&st.numFound) > 0 {
@@ -467,22 +525,25 @@ wait:
 	case atomic.LoadInt64(&st.numCheckToDiscard) > 0:
 		classes = append(classes, "ran-out-of-transports")
 	default:
-		classes = append(classes, "gave-up-on-"+c.script().End)
+		classes = append(classes, "gave-up-on-"+script.End)
 	}
 	if len(c.Cuts) > 0 {
 		classes = append(classes, "segmented")
 	}
-	nontrivial = len(c.Data) >= 32 && onPhantom > 0
-	return classes, nontrivial, o
+	if atomic.LoadInt64(&st.numFound) > 0 && c.Flight != nil && len(created) > 0 {
+		classes = append(classes, "found-with-generated-flight")
+	}
+	nontrivial = len(stream) >= 32 && onPhantom > 0
+	return entry, classes, nontrivial, o
 }
 
 func c11ConnCheck(t vh.Fataler, rec *vh.Rec, e *c11AppEnv, c c11ConnCase, fuzz bool) {
-	classes, nontrivial, o := c11ConnRun(e, c)
+	entry, classes, nontrivial, o := c11ConnRun(e, c)
 	classes = append(classes, c11h.Source(fuzz), fmt.Sprintf("registry:%d", c.Variant))
 	if c.Kind != "" {
 		classes = append(classes, "kind:"+c.Kind)
 	}
-	c11h.Report(t, rec, c11ConnSub, "conn", c, vh.Digest(c), o, nontrivial, classes...)
+	c11h.Report(t, rec, c11ConnSub, entry, c, vh.Digest(c), o, nontrivial, classes...)
 }
 
 const c11ConnRule = "handleNewTCPConn on a scripted connection: the same byte streams as the wrap sub-check, delivered in 1-9 drawn segments and followed by EOF (sometimes reset / deadline), against the same registries, v4 and v6 phantom; non-trivial = at least 32 bytes against a phantom that has registrations (transports are consulted); classes by how the handler ended (registration found -> tunnel whose covert dial is refused, deliberate sleep after a transport error, ran out of transports, gave up on the read error, no-registration drain); distinct by case"
@@ -491,9 +552,12 @@ func c11ConnSeeds(flights []c11Flight) [][]any {
 	var out [][]any
 	for _, s := range c11WrapSeeds(flights) {
 		data := s[0].([]byte)
-		out = append(out, []any{data, []byte{}, s[1]})
+		out = append(out, []any{data, []byte{}, s[1], s[2]})
 		if len(data) > 4 {
-			out = append(out, []any{data, []byte{0, 0, 3}, s[1]}, []any{data, []byte{byte(len(data) / 34)}, s[1]})
+			out = append(out, []any{data, []byte{0, 0, 3}, s[1], s[2]})
+		}
+		if len(s[1].([]byte)) == 0 && len(data) > 4 {
+			out = append(out, []any{data, []byte{byte(len(data) / 34)}, s[1], s[2]})
 		}
 	}
 	return out
@@ -524,15 +588,16 @@ func TestVerif_C11_conn(t *testing.T) {
 		c11ConnCheck(t, rec, e, c, false)
 		return
 	}
-	rec.Require("registration-found", "transport-error-sleep", "ran-out-of-transports", "gave-up-on-eof", "no-registration-drain", "segmented", "kind:short", "kind:truncated")
+	rec.Require("registration-found", "transport-error-sleep", "ran-out-of-transports", "gave-up-on-eof", "no-registration-drain", "segmented", "kind:short", "kind:truncated",
+		"gen:accepted", "gen:accepted-params-nil:Prefix", "genuine-flight-for-accepted-generated-reg", "genuine-flight-for-params-nil-reg", "found-with-generated-flight")
 	flights := e.c11Flights(t, true)
 	if err := c11h.WriteCorpus("FuzzVerif_C11_conn", c11ConnSeeds(flights)); err != nil {
 		t.Fatalf("harness problem: %v", err)
 	}
 	rapid.Check(t, func(rt *rapid.T) {
-		data, kind := c11FlightBytes(rt, flights)
-		c := c11ConnCase{Data: data, V6: rapid.IntRange(0, 3).Draw(rt, "v6") == 3, Variant: c11Variant(rt), Kind: kind,
+		c := c11ConnCase{V6: rapid.IntRange(0, 3).Draw(rt, "v6") == 3, Variant: c11Variant(rt),
 			End: rapid.SampledFrom([]string{"eof", "eof", "eof", "reset", "timeout"}).Draw(rt, "end")}
+		c.Data, c.Kind, c.RegMsgs, c.Flight = c11DrawInput(rt, flights)
 		nseg := rapid.SampledFrom([]int{0, 0, 1, 2, 4, 8}).Draw(rt, "nseg")
 		for i := 0; i < nseg; i++ {
 			c.Cuts = append(c.Cuts, rapid.SampledFrom([]int{1, 2, 5, 16, 31, 32, 33, 63, 64, 65, 100, 1000, 4096, 5000}).Draw(rt, "cut"))
@@ -549,10 +614,14 @@ func FuzzVerif_C11_conn(f *testing.F) {
 	for _, s := range c11ConnSeeds(e.c11Flights(f, true)) {
 		f.Add(s...)
 	}
-	f.Fuzz(func(t *testing.T, data []byte, seg []byte, cfg uint16) {
-		if len(data) > 20000 {
+	f.Fuzz(func(t *testing.T, data []byte, seg []byte, regmsg []byte, cfg uint16) {
+		if len(data) > 20000 || len(regmsg) > 4096 {
 			return
 		}
-		c11ConnCheck(t, rec, e, c11ConnCase{Data: data, Cuts: c11SegCuts(seg), Variant: int(cfg>>2) & 3, V6: cfg&2 != 0, End: "eof"}, true)
+		c := c11ConnCase{Data: data, Cuts: c11SegCuts(seg), Variant: int(cfg>>2) & 3, V6: cfg&2 != 0, End: "eof"}
+		if len(regmsg) > 0 {
+			c.RegMsgs, c.Flight = []vh.Hex{regmsg}, c11FlightFromSel(cfg)
+		}
+		c11ConnCheck(t, rec, e, c, true)
 	})
 }
